@@ -14,7 +14,7 @@ RUNS = {
     "C20": lambda seed, n: [["-seed", str(seed), "-n", str(n), "-x", "norevoke"]],
 }
 
-RULE = ("random histories over 13 cache configurations (default, minute precision, no cache, SK-only, shared LRU-2, shared simple, SK LRU-1, IK SLRU-1, IK LFU-2, "
+RULE = ("random histories over 14 configurations (default, minute precision, RevokeCheckInterval 0, no cache, SK-only, shared LRU-2, shared simple, SK LRU-1, IK SLRU-1, IK LFU-2, "
         "tinylfu, session cache 2, session cache 1 with expiry, no-cache+shared): 1-2 factories sharing one metastore, 1-3 partitions, encrypt/decrypt "
         "(25% with 1-2 injected faults: err / false duplicate / error-after-write on any boundary call), clock advances drawn from boundary values "
         "(+-1ns around RCI, expiry, precision), revocation of latest/older IK/SK, session close/reopen, factory restart, final decrypt of every record "
